@@ -46,6 +46,8 @@ import MagpyVerif.Lemmas.MeshPerm
 import MagpyVerif.Lemmas.TrianglePerm
 import MagpyVerif.Lemmas.TrimeshWinding
 import MagpyVerif.Lemmas.TrimeshSum
+import MagpyVerif.Lemmas.TrimeshSeed
+import MagpyVerif.Lemmas.TrimeshSeedTetra
 namespace MagpyVerif.C16
 open MagpyVerif.Mesh
 
@@ -1162,5 +1164,163 @@ theorem crossing_count_winding_invariant (l0 l1 : V3 ℝ) (f1 f2 : List (Tri ℝ
   crossCount_winding l0 l1 f1 f2 h
 
 example (t : Tri ℝ) : triFlip t ∈ triWindings t := by simp [triWindings]
+
+end MagpyVerif.C16
+
+/-! ## the seed test `is_facet_inwards` itself (after repo fix ed093b8: displacement 1e-5 × the LONGEST edge)
+
+`Kern.seedCheckPoint face` is the check point the model computes (`isFacetInwards face faces = maskInsideTrimesh faces (seedCheckPoint face)`
+holds by `rfl`: first conjunct below), `Kern.touchProj` the quantity `proj1` of `lines_end_in_trimesh` whose absolute value is compared with
+the touch tolerance 1e-7 (`Kern.faceTest_snd`, by `rfl`). -/
+
+namespace MagpyVerif.C16
+open MagpyVerif.Kern
+
+/-- **`seed_checkpoint_clears_own_plane`** — for a facet of positive area, the check point `c + n̂·1e-5·(longest edge)` of
+`is_facet_inwards` has, with respect to the facet's OWN plane and seen from any of its corners (the ray test measures from `f[2]`, or from
+`f[1]` when the end point is within 1e-8 of `f[2]`), a normalised projection of at least `1e-5/(1 + 1e-5)` ≈ 100 × the touch tolerance
+`1e-7`; so the entry of `result_touch` for the seed facet itself is `False` — for every start point of the test line, with the lengths as
+given and divided by any positive mesh size.  (The centroid is at most 2/3 of the longest edge from a corner; the proof uses ≤ 1.) -/
+theorem seed_checkpoint_clears_own_plane (face : Tri ℝ)
+    (harea : 0 < vNorm2 (V3.cross (face.1 - face.2.1) (face.2.1 - face.2.2))) :
+    (∀ faces, isFacetInwards face faces = maskInsideTrimesh faces (seedCheckPoint face)) ∧
+    (∀ r, r = face.1 ∨ r = face.2.1 ∨ r = face.2.2 →
+      (1 / 100000 : ℝ) / (1 + 1 / 100000) ≤
+        vNormProj (seedCheckPoint face - r) (V3.cross (face.1 - face.2.2) (face.2.1 - face.2.2))) ∧
+    (1 / 10000000 : ℝ) < (1 / 100000 : ℝ) / (1 + 1 / 100000) ∧
+    (∀ l0, (faceTest l0 (seedCheckPoint face) face).2 = false) ∧
+    (∀ l0 s, 0 < s → (faceTest l0 (vd (seedCheckPoint face) s) (triDiv s face)).2 = false) :=
+  ⟨fun _ => rfl, fun r hr => seedCheckPoint_proj_ge face harea r hr, by norm_num,
+    fun l0 => (seed_own_facet_not_touched face harea l0).1, fun l0 s hs => (seed_own_facet_not_touched face harea l0).2 s hs⟩
+
+-- non-vacuity: the needle facet below has positive area
+example : 0 < vNorm2 (V3.cross (sliverFacet.1 - sliverFacet.2.1) (sliverFacet.2.1 - sliverFacet.2.2)) := by
+  simp only [sliverFacet, vNorm2, V3.cross, V3.sub_x, V3.sub_y, V3.sub_z]; norm_num
+
+/-- **`old_rule_touches_sliver`** — the converse witness.  With the rule BEFORE ed093b8 (`seedCheckPointOld`: displacement
+1e-5 × |v1|, the FIRST edge) the needle facet (0,0,0), (1/1250, 0, −3/5000), (12/25, 4/5, −9/25) — first edge 1/1000, longest edge 1:
+aspect ratio 1000, listed from its short edge — has its check point within the touch tolerance of its own plane (normalised projection
+≈ 1.5e-8 < 1e-7), and in the valid tetrahedron `sliverTetra` (apex (−13/25, 0, −1/2); all four faces outwards, mesh size 1) that facet, wound
+OUTWARDS, is judged INWARDS: every face of the mesh would be flipped.  The rule since the fix judges it outwards. -/
+theorem old_rule_touches_sliver :
+    sliverFacet ∈ sliverTetra ∧
+    0 < tdet (⟨-13 / 25, 0, -1 / 2⟩ : V3 ℝ) ⟨0, 0, 0⟩ ⟨1 / 1250, 0, -3 / 5000⟩ ⟨12 / 25, 4 / 5, -9 / 25⟩ ∧
+    |touchProj (seedCheckPointOld sliverFacet) sliverFacet| < 1 / 10000000 ∧
+    maskInsideTrimesh sliverTetra (seedCheckPointOld sliverFacet) = true ∧
+    isFacetInwards sliverFacet sliverTetra = false :=
+  ⟨by simp [sliverFacet, sliverTetra, tetraFaces], sliverTetra_outward, sliver_old_touches, sliverTetra_old_inside,
+    sliverTetra_new_outside⟩
+
+/-- **`touch_verdict_depends_on_reference_vertex`** — inside the touch band (closer than 1e-7, relative, to a face: the library's own
+definition of 'on the surface') the verdict of `mask_inside_trimesh` depends on the vertex order of that face.  Unit tetrahedron, all
+faces outwards; observer (0.9, 0.05, 0.05) + 3e-8·(1, 1, 1), about 5.2e-8 outside the face x + y + z = 1: with that face listed as
+[2, 3, 1] (last corner (1,0,0), 0.12 away: |proj| ≈ 4.2e-7) the answer is OUTSIDE, listed as [3, 1, 2] (last corner (0,1,0), 1.3 away:
+|proj| ≈ 4e-8) it is INSIDE.  Both lists are rotations of the same outward face (`triWindings`); the crossing counts agree
+(`crossing_count_winding_invariant`).  Reproduced on the real class (getB differs by the polarization). -/
+theorem touch_verdict_depends_on_reference_vertex :
+    triRotate utSlant ∈ triWindings utSlant ∧ triRotate (triRotate utSlant) ∈ triWindings utSlant ∧
+    unitTetraWith utSlant = unitTetra ∧
+    maskInsideTrimesh (unitTetraWith (triRotate utSlant)) bandPoint = false ∧
+    maskInsideTrimesh (unitTetraWith (triRotate (triRotate utSlant))) bandPoint = true :=
+  ⟨by simp [triWindings], by simp [triWindings], rfl, band_outside, band_inside⟩
+
+/-! ### is the seed verdict geometric?
+
+/- FULL: `seed_verdict_geometric_convex` — for a CONVEX closed mesh (every vertex on the non-positive side of every outward face plane) the
+   seed facet wound outwards gets the verdict "outwards", wound inwards "inwards" provided the displacement 1e-5 × (longest edge) is smaller
+   than the body's thickness along the facet normal.  Missing: (a) for a general convex mesh the parity argument "a generic ray from outside to
+   a point outside crosses the boundary 0 or 2 times" as `lines_end_in_trimesh` counts crossings (needs the closedness of the triangulation);
+   (b) the verdict "outside" also needs that NO face is touched (a neighbouring face at a dihedral angle below ~1e-5 is). -/
+Proved: the half that needs no parity (a check point that fails the bounding-box pre-filter: "outwards"), the decomposition
+`mask_inside_trimesh = box ∧ (odd crossing count ∨ any touch)` with box and crossing count independent of the windings, and for a mesh
+that is ONE tetrahedron given with ANY windings: check point strictly inside ⇒ "inwards"; check point beyond the plane of the seed facet only,
+no other face touched ⇒ "outwards" (even crossing count: `Kern.beyond_one_face_parity`, `Kern.crossCount_tetra_beyond_first`). -/
+
+/-- a check point outside the bounding box (enlarged by 1e-12 of its largest edge) is not ray-tested: verdict "outwards" — any mesh -/
+theorem seed_verdict_outside_box_outwards (face : Tri ℝ) (faces : List (Tri ℝ))
+    (h : insideBoxV (meshVerts faces) (seedCheckPoint face) = false) : isFacetInwards face faces = false := by
+  rw [isFacetInwards_eq_mask, maskInsideTrimesh_eq, h]; rfl
+
+/-- `mask_inside_trimesh` = pre-filter ∧ (odd number of crossed faces ∨ some face touched); the first two ingredients do not depend on how
+the corners of the faces are listed, so for a mesh given with other windings an odd count of the reference listing decides "inside", an even
+count together with "no face touched (as listed)" decides "outside" -/
+theorem mask_inside_trimesh_rewinding (f1 f2 : List (Tri ℝ)) (h : List.Forall₂ (fun f g => g ∈ triWindings f) f1 f2) (x : V3 ℝ) :
+    maskInsideTrimesh f2 x = (insideBoxV (meshVerts f1) x && (crossCount f1 x % 2 != 0 || anyTouch f2 x)) := by
+  rw [maskInsideTrimesh_eq, insideBox_rewind h, crossCount_rewind h]
+
+/-- **`seed_verdict_geometric_tetra_partial`** — a mesh that is ONE tetrahedron (`v0 v1 v2 v3` right-handed), its faces given with ANY
+windings (`faces`); the seed facet of `get_inwards_mask` is the first face.  (1) If the first face is given OUTWARDS its check point lies
+strictly beyond that face's plane (barycentric numerator of `v3` negative); given FLIPPED it lies on the body's side (numerator positive) —
+the check point changes sides with the winding: the geometric fact.  (2) If the check point of a facet `g` is strictly inside (all four
+numerators positive: the displacement 1e-5 × longest edge is smaller than the body's thickness along the normal) and its test ray is
+generic, the verdict is "inwards", whatever the windings of the faces.  (3) If the check point of a facet `g` of positive area that is one of
+the listed faces lies beyond the plane of the first face only (numerator of `v3` negative, the other three positive), its test ray is
+generic and no OTHER face is touched (normalised projection ≥ 1e-7 from both corners the ray test may measure from; the own facet never is:
+`seed_checkpoint_clears_own_plane`), the verdict is "outwards": the generic ray from outside to a point outside crosses an even number of
+faces (`Kern.crossCount_tetra_beyond_first`).  With (1): on such a tetrahedron the verdict of the seed test is geometric — the hypothesis
+`hgeo` of `reorient_invariant_under_input_flips`.
+/- FULL: `seed_verdict_geometric_convex` (see above): any convex closed mesh, any seed facet.  Missing: the parity argument for a closed
+   triangulated convex surface; the no-touch hypothesis for the other faces cannot be dropped (a neighbouring face at a dihedral angle below
+   ~1e-5 is touched); `RayGeneric` cannot be dropped either (`ray_through_edge_is_not_generic`). -/ -/
+theorem seed_verdict_geometric_tetra_partial (v0 v1 v2 v3 : V3 ℝ) (hd : 0 < tdet v0 v1 v2 v3) :
+    (bary v0 v1 v2 v3 (seedCheckPoint (v0, v2, v1)) 3 < 0 ∧ 0 < bary v0 v1 v2 v3 (seedCheckPoint (triFlip (v0, v2, v1))) 3) ∧
+    (∀ (faces : List (Tri ℝ)) (g : Tri ℝ), List.Forall₂ (fun f g => g ∈ triWindings f) (tetraFaces v0 v1 v2 v3) faces →
+      (∀ k, 0 < bary v0 v1 v2 v3 (seedCheckPoint g) k) → RayGeneric (tetraFaces v0 v1 v2 v3) (seedCheckPoint g) →
+      isFacetInwards g faces = true) ∧
+    (∀ (faces : List (Tri ℝ)) (g : Tri ℝ), List.Forall₂ (fun f g => g ∈ triWindings f) (tetraFaces v0 v1 v2 v3) faces →
+      0 < vNorm2 (V3.cross (g.1 - g.2.1) (g.2.1 - g.2.2)) →
+      bary v0 v1 v2 v3 (seedCheckPoint g) 3 < 0 → 0 < bary v0 v1 v2 v3 (seedCheckPoint g) 0 →
+      0 < bary v0 v1 v2 v3 (seedCheckPoint g) 1 → 0 < bary v0 v1 v2 v3 (seedCheckPoint g) 2 →
+      RayGeneric (tetraFaces v0 v1 v2 v3) (seedCheckPoint g) →
+      (∀ f ∈ faces, f ≠ g →
+        (1 / 10000000 : ℝ) ≤ |vNormProj (seedCheckPoint g - f.2.1) (V3.cross (f.1 - f.2.2) (f.2.1 - f.2.2))| ∧
+        (1 / 10000000 : ℝ) ≤ |vNormProj (seedCheckPoint g - f.2.2) (V3.cross (f.1 - f.2.2) (f.2.1 - f.2.2))|) →
+      isFacetInwards g faces = false) := by
+  refine ⟨seed_side_tetra v0 v1 v2 v3 hd, fun faces g hw hx hgen => ?_, fun faces g hw harea hx3 hx0 hx1 hx2 hgen ht => ?_⟩
+  · rw [isFacetInwards_eq_mask]; exact maskInside_tetra_rewound_inside v0 v1 v2 v3 _ faces hw hd hx hgen
+  · rw [isFacetInwards_eq_mask]
+    apply maskInside_tetra_rewound_beyond_first v0 v1 v2 v3 _ faces hw hd hx3 hx0 hx1 hx2 hgen
+    intro f hf
+    by_cases hfg : f = g
+    · subst hfg
+      have hb : (1 / 10000000 : ℝ) ≤ (1 / 100000 : ℝ) / (1 + 1 / 100000) := by norm_num
+      exact ⟨(hb.trans (seedCheckPoint_proj_ge f harea f.2.1 (Or.inr (Or.inl rfl)))).trans (le_abs_self _),
+        (hb.trans (seedCheckPoint_proj_ge f harea f.2.2 (Or.inr (Or.inr rfl)))).trans (le_abs_self _)⟩
+    · exact ht f hf hfg
+
+theorem abs_proj_ge (a b : V3 ℝ) (h : 0 < vNorm2 a * vNorm2 b)
+    (hh : (1 / 10000000 : ℝ) ^ 2 * (vNorm2 a * vNorm2 b) ≤ (V3.dot a b) ^ 2) : (1 / 10000000 : ℝ) ≤ |vNormProj a b| := by
+  rw [← not_lt, vNormProj_abs_lt a b h _ (by norm_num)]
+  exact not_lt.mpr hh
+
+-- non-vacuity of (2): the tetrahedron (0,0,0), (3,0,0), (0,4,0), (0,0,1) given with its first face flipped — that face is judged inwards
+example : isFacetInwards (triFlip ((⟨0, 0, 0⟩, ⟨0, 4, 0⟩, ⟨3, 0, 0⟩) : Tri ℝ))
+    (triFlip ((⟨0, 0, 0⟩, ⟨0, 4, 0⟩, ⟨3, 0, 0⟩) : Tri ℝ) :: t345.tail) = true := by
+  have hd : 0 < tdet (⟨0, 0, 0⟩ : V3 ℝ) ⟨3, 0, 0⟩ ⟨0, 4, 0⟩ ⟨0, 0, 1⟩ := by simp [tdet, det3]
+  refine (seed_verdict_geometric_tetra_partial _ _ _ _ hd).2.1 _ _ ?_ ?_ ?_
+  · refine .cons (by simp [triWindings]) (.cons ?_ (.cons ?_ (.cons ?_ .nil))) <;> simp [triWindings]
+  · rw [t345_check_in]
+    intro k
+    fin_cases k <;> (simp [bary, tdet, det3]; try norm_num)
+  · rw [t345_check_in]; exact t345_generic _ (Or.inl rfl)
+
+-- non-vacuity of (3): the same tetrahedron as `tetraFaces` lists it — the first face is judged outwards
+example : isFacetInwards ((⟨0, 0, 0⟩, ⟨0, 4, 0⟩, ⟨3, 0, 0⟩) : Tri ℝ) t345 = false := by
+  have hd : 0 < tdet (⟨0, 0, 0⟩ : V3 ℝ) ⟨3, 0, 0⟩ ⟨0, 4, 0⟩ ⟨0, 0, 1⟩ := by simp [tdet, det3]
+  refine (seed_verdict_geometric_tetra_partial _ _ _ _ hd).2.2 t345 _ ?_ ?_ ?_ ?_ ?_ ?_ ?_ ?_
+  · refine .cons (by simp [triWindings]) (.cons ?_ (.cons ?_ (.cons ?_ .nil))) <;> simp [triWindings]
+  · simp [vNorm2, V3.cross]
+  · rw [t345_check_out]; simp [bary, tdet, det3]
+  · rw [t345_check_out]; simp [bary, tdet, det3]; norm_num
+  · rw [t345_check_out]; simp [bary, tdet, det3]
+  · rw [t345_check_out]; simp [bary, tdet, det3]
+  · rw [t345_check_out]; exact t345_generic _ (Or.inr rfl)
+  · rw [t345_check_out]
+    intro f hf hne
+    simp only [t345, tetraFaces, List.mem_cons, List.not_mem_nil, or_false] at hf
+    rcases hf with rfl | rfl | rfl | rfl
+    · exact absurd rfl hne
+    all_goals
+      constructor <;> apply abs_proj_ge <;> simp only [V3.dot, V3.cross, vNorm2, V3.sub_x, V3.sub_y, V3.sub_z] <;> norm_num
 
 end MagpyVerif.C16
